@@ -25,6 +25,11 @@ def run(ctx):
     repo = ctx.repo
     global_patches(ctx, 'C16.R1')
 
+    # ---- R3 ----------------------------------------------------------------------
+    ctx.rule('C16.R3', 'get_code, interpreted over {module name excluded or not} × {configuration registered or not} × {the '
+             'standard loader returns / raises}: the standard loader is called exactly once; for a hooked module it runs '
+             'with the beartype cache-path function installed, for any other module '
+             'with the library\'s own function; after get_code returns or raises the library\'s own function is back')
     # ---- R2 ----------------------------------------------------------------------
     ctx.rule('C16.R2', 'every configuration option read (as self._conf.<opt> / conf.<opt>) by the AST transformer under '
              'beartype/claw/_ast must be an input of the marker that cache_from_source_beartype adds to the cache '
@@ -37,9 +42,11 @@ def run(ctx):
             if isinstance(x, ast.Attribute) and isinstance(x.ctx, ast.Load) and dotted(x.value) in ('self._conf', 'conf') \
                     and not x.attr.startswith('_'):
                 read.setdefault(x.attr, (m, x))
-    cm = repo.mod(CACHE)
-    cf = cm.defs.get('cache_from_source_beartype')
-    ctx.require(cf is not None, 'anchor vanished: cache_from_source_beartype')
+    # the beartype variant of the cache-path function, by role: the function get_code installs (interpreted below)
+    variant = loader_protocol(ctx, 'C16.R3', None)
+    ctx.require(variant is not None, 'anchor vanished: get_code installs no repository function as the cache-path function')
+    cm = repo.mod(variant.module)
+    cf = variant.node
     inputs = {x.attr for x in ast.walk(cf) if isinstance(x, ast.Attribute)} | {x.id for x in ast.walk(cf) if isinstance(x, ast.Name)}
     for opt, (m, x) in sorted(read.items()):
         ctx.ob('C16.R2', f'marker-input:{opt}', m.where(x),
@@ -47,65 +54,221 @@ def run(ctx):
                f'the marker is computed from {sorted(i for i in inputs if i.isupper() or "marker" in i.lower())} only')
     ctx.floor('C16.R2', len(read), 2, 'options read by the transformer')
 
-    # ---- R3 ----------------------------------------------------------------------
-    ctx.rule('C16.R3', 'get_code: the patch is immediately followed by try/finally restoring the original on every '
-             'exit; every super().get_code() on an un-hooked path lies before the patch, the hooked one inside the try')
-    lm = repo.mod(LOADER)
-    gc = None
-    for c in [n for n in lm.tree.body if isinstance(n, ast.ClassDef)]:
-        for f in c.body:
-            if isinstance(f, ast.FunctionDef) and f.name == 'get_code':
-                gc = f
-    ctx.require(gc is not None, 'anchor vanished: BeartypeSourceFileLoader.get_code')
-    patches = [a for a in walk_shallow(gc) if isinstance(a, ast.Assign) and norm(a.targets[0]).endswith('.cache_from_source')]
-    patch = [a for a in patches if 'original' not in norm(a.value)]
-    ctx.require(len(patch) >= 1, 'get_code: no patch assignment found')
-    # a second non-restoring assignment (e.g. inside the finally block) is itself the violation
-    ctx.ob('C16.R3', 'get_code:one-patch-assignment', lm.where(patch[-1]),
-           'the cache-path function is replaced by the beartype variant exactly once per call', len(patch) == 1,
-           f'{len(patch)} assignments install a non-original function: {[f"line {a.lineno}: {norm(a)[:70]}" for a in patch]}')
-    p = patch[0]
-    blk = parent(p).body
-    i = blk.index(p)
-    nxt = blk[i + 1] if i + 1 < len(blk) else None
-    ok = isinstance(nxt, ast.Try) and nxt.finalbody and any(
-        isinstance(a, ast.Assign) and norm(a.targets[0]) == norm(p.targets[0]) and 'original' in norm(a.value) for a in nxt.finalbody)
-    ctx.ob('C16.R3', 'get_code:patch-then-try-finally-restore', lm.where(p),
-           'the statement after the patch is a try whose finally restores the original function', ok,
-           f'next statement: {type(nxt).__name__ if nxt is not None else None}')
-    supers = [c for c in walk_shallow(gc) if isinstance(c, ast.Call) and norm(c.func) == 'super().get_code']
-    inside = [c for c in supers if isinstance(nxt, ast.Try) and any(c in list(ast.walk(s)) for s in nxt.body)]
-    before = [c for c in supers if c.lineno < p.lineno]
-    ctx.ob('C16.R3', 'get_code:unhooked-paths-outside-patch', lm.where(gc),
-           'un-hooked returns call super().get_code() before the patch; the hooked one inside the try',
-           len(inside) == 1 and len(before) == len(supers) - 1 and len(supers) >= 2,
-           f'{len(supers)} calls: {len(before)} before the patch, {len(inside)} inside the try')
-
     # ---- R4 ----------------------------------------------------------------------
     ctx.rule('C16.R4', 'the marker is a non-empty string bound to the beartype version and is appended to (not '
              'substituted for) the optimisation tag the interpreter passes')
-    kw = [a for a in walk_shallow(cf) if isinstance(a, ast.Assign) and "kwargs['optimization']" == norm(a.targets[0])]
-    ok = len(kw) == 1 and isinstance(kw[0].value, ast.JoinedStr) and len([v for v in kw[0].value.values if isinstance(v, ast.FormattedValue)]) == 2
-    first = norm(kw[0].value.values[0].value) if ok else ''
-    got = [a for a in walk_shallow(cf) if isinstance(a, ast.Assign) and dotted(a.targets[0]) == first]
-    ok = ok and bool(got) and "kwargs.get('optimization'" in norm(got[0].value)
-    # the marker is applied on every path: no return of the beartype variant may be reached without the store
-    from sa.flow import Flow
-    unmarked = []
-    Flow(lambda node: ['marked'] if (isinstance(node, ast.Assign) and norm(node.targets[0]) == "kwargs['optimization']") else [],
-         mode='must', on_exit=lambda node, kind, st: unmarked.append(node) if kind in ('return', 'fallthrough') and 'marked' not in st else None).run(cf)
-    ctx.ob('C16.R4', 'marker:on-every-path', cm.where(unmarked[0]) if unmarked and unmarked[0] is not None else cm.where(cf),
-           'every return of cache_from_source_beartype is preceded by the marker store: the path it returns is used for '
-           'reading as well as for writing bytecode', not unmarked,
-           f'the return at line {getattr(unmarked[0], "lineno", "?")} yields the un-marked path (hooked code would read and '
-           f'write the cache file of un-hooked code)' if unmarked else '')
-    ctx.ob('C16.R4', 'marker:appended-to-interpreter-tag', cm.where(cf),
-           'the interpreter\'s optimisation tag is kept as a prefix of the beartype marker', ok, norm(kw[0])[:120] if kw else '')
-    marker = ctx.folder.value('beartype._data.claw.dataclawmagic', 'OPTIMIZATION_MARKER_BEARTYPE')
-    dm = repo.mod('beartype._data.claw.dataclawmagic')
-    src = [st for st in dm.assigns.get('OPTIMIZATION_MARKER_BEARTYPE', [])]
-    txt = norm(src[-1].value) if src else ''
-    ok = bool(src) and ('VERSION' in txt.upper())
-    ctx.ob('C16.R4', 'marker:version-bound-non-empty', dm.where(src[-1]) if src else dm.where(dm.tree.body[0]),
-           'the marker embeds the beartype version (a new release never reuses old bytecode) and cannot be empty',
-           ok and (not isinstance(marker, str) or len(marker) > 0), txt[:120])
+    _marker_protocol(ctx, variant)
+
+
+def _marker_protocol(ctx, variant):
+    """R4 by interpretation: the beartype cache-path function called the way the import machinery calls it."""
+    from sa.fold import Sym, _Abort, _Raise, _call_function
+    from . import _gen
+    repo = ctx.repo
+    F = _gen.engines(ctx)[0].f
+    cm = repo.mod(variant.module)
+    saved_ext = dict(F.ext_stubs)
+    calls = []
+
+    def library(env, a, k):
+        calls.append((list(a), dict(k)))
+        return ('PATH-FOR', k.get('optimization'))
+    for nm in ('importlib.util.cache_from_source', 'importlib._bootstrap_external.cache_from_source',
+               'importlib.machinery.cache_from_source'):
+        F.ext_stubs[nm] = library
+    # the marker, by role: the one module-level string constant the variant reads
+    env = F.module_env(variant.module)
+    names = {x.id for x in ast.walk(variant.node) if isinstance(x, ast.Name)}
+    imported = {}
+    for st in ast.walk(variant.node):
+        if isinstance(st, ast.ImportFrom):
+            for al in st.names:
+                imported[al.asname or al.name] = (st.module, al.name)
+    markers = {}
+    for n in sorted(names):
+        v = env.get(n)
+        if n in imported:
+            try:
+                v = F.value(*imported[n])
+            except Exception:
+                v = None
+        if isinstance(v, str):
+            markers[n] = v
+    try:
+        for tag, kw in (('absent', {}), ('empty', {'optimization': ''}), ('level-1', {'optimization': 1}), ('level-2', {'optimization': 2})):
+            del calls[:]
+            try:
+                out = _call_function(F, variant, ['/src/pkg/mod.py'], dict(kw), 1)
+            except (_Abort, _Raise) as ex:
+                ctx.require(False, f'cannot interpret {variant.qual}: {ex}')
+            given = kw.get('optimization', '')
+            ok_call = len(calls) == 1 and calls[0][0] == ['/src/pkg/mod.py'] and set(calls[0][1]) == {'optimization'}
+            opt = calls[0][1].get('optimization') if ok_call else None
+            ctx.ob('C16.R4', f'marker:on-every-path:{tag}', cm.where(variant.node),
+                   'the library function is called once, with the source path it was given and a marked optimisation tag, and '
+                   'its answer is returned: the marked path is used for reading as well as for writing bytecode',
+                   ok_call and isinstance(opt, str) and out == ('PATH-FOR', opt) and opt != str(given),
+                   f'calls {calls}; evaluates to {out!r}')
+            if not (ok_call and isinstance(opt, str)):
+                continue
+            ctx.ob('C16.R4', f'marker:appended-to-interpreter-tag:{tag}', cm.where(variant.node),
+                   'the interpreter\'s optimisation tag is kept as a prefix of the beartype marker',
+                   opt.startswith(str(given)) and len(opt) > len(str(given)), f'optimization={given!r} becomes {opt!r}')
+            suffix = opt[len(str(given)):] if opt.startswith(str(given)) else opt
+            ctx.ob('C16.R4', f'marker:is-the-version-bound-constant:{tag}', cm.where(variant.node),
+                   'what is appended is a module-level marker constant', suffix in markers.values(), f'appended {suffix!r}; constants {markers}')
+    finally:
+        F.ext_stubs.clear()
+        F.ext_stubs.update(saved_ext)
+    # the marker embeds the version: its defining expression reads the version constant of the package
+    for n, v in markers.items():
+        mod_name, attr = imported.get(n, (variant.module, n))
+        dm = repo.mod(mod_name)
+        src = dm.assigns.get(attr, [])
+        ver = ctx.folder.value('beartype._metaverse', 'VERSION')
+        txt = norm(src[-1].value) if src else ''
+        reads_version = any(isinstance(x, ast.Name) and x.id.upper().startswith('VERSION') for st in src for x in ast.walk(st.value))
+        ctx.ob('C16.R4', 'marker:version-bound-non-empty', dm.where(src[-1]) if src else dm.where(dm.tree.body[0]),
+               'the marker embeds the beartype version (a new release never reuses old bytecode) and cannot be empty',
+               reads_version and len(v) > 0 and (not isinstance(ver, str) or ver.replace('.', 'v') in v or ver in v), f'{txt[:100]} = {v!r}')
+    ctx.require(markers, f'{variant.qual}: no module-level marker constant read')
+
+
+def loader_protocol(ctx, RULE_PATCH, RULE_PUB):
+    """get_code, interpreted (the analyser's own interpreter, handlers and finally clauses modelled) over
+    {module name excluded or not} × {a configuration is registered for the module or not} × {the standard loader returns
+    or raises} with a stale table entry present: what the standard loader sees when it is called (the cache-path function
+    installed, the configuration published on the loader and in the run-time table) and what is left behind afterwards."""
+    from sa.fold import AObj, FuncVal, Sym, _Abort, _Raise, _PyCallable, _call_function
+    from . import _gen
+    repo = ctx.repo
+    F = _gen.engines(ctx)[0].f
+    lm = repo.mod(LOADER)
+    cls = F.const(LOADER, 'BeartypeSourceFileLoader')
+    fn = cls.find('get_code')
+    ctx.require(isinstance(fn, FuncVal), 'anchor vanished: BeartypeSourceFileLoader.get_code')
+    ORIGINAL = 'the-library-function'
+
+    def ob(rule, *a):
+        if rule is not None:
+            ctx.ob(rule, *a)
+
+    class _Ext(AObj):
+        _track_attribute_stores = True
+
+        def __init__(self):
+            self.cache_from_source = ORIGINAL
+
+    class _Self(AObj):
+        _track_attribute_stores = True
+
+        def __init__(self):
+            self._module_conf, self._module_name = None, None
+
+    class _State(AObj):
+        def __init__(self):
+            self.module_name_to_beartype_conf = {'pkg.mod': 'STALE-CONF'}
+
+    class _Regex(AObj):
+        def __init__(self, hit):
+            self.hit = hit
+
+        def match(self, s):
+            return 'match' if self.hit else None
+
+        def search(self, s):
+            return self.match(s)
+
+        def fullmatch(self, s):
+            return self.match(s)
+
+    def is_original(v):
+        return v == ORIGINAL or (isinstance(v, Sym) and v.kind == 'ext' and v.name.split('.')[-1] == 'cache_from_source')
+    ext_names = [n for n, v in F.module_env(LOADER).items() if isinstance(v, Sym) and v.kind == 'ext'
+                 and v.name in ('importlib._bootstrap_external', 'importlib.machinery', 'importlib.util')]
+    regexes = [n for n, v in F.module_env(LOADER).items() if n.isupper() and 'REGEX' in n]
+    ctx.require(regexes, 'anchor vanished: the compiled exclusion pattern imported by the loader module')
+    saved_stubs, saved_b = dict(F.stubs), F.builtin_hook
+    variant = []
+    try:
+        F.faithful_try = True
+        for excluded in (False, True):
+            for conf in ('CONF', None):
+                for outcome in ('returns', 'raises'):
+                    ext, slf, state = _Ext(), _Self(), _State()
+                    olds = [(LOADER, n, F.patch_global(LOADER, n, ext)) for n in ext_names]
+                    olds += [(LOADER, n, F.patch_global(LOADER, n, _Regex(excluded))) for n in regexes]
+                    olds.append(('beartype.claw._clawstate', 'claw_state', F.patch_global('beartype.claw._clawstate', 'claw_state', state)))
+                    F.stubs['beartype.claw._package.clawpkgtrie.get_package_conf_or_none'] = lambda e, a, k, conf=conf: conf
+                    calls = []
+
+                    def std_get_code(name, ext=ext, slf=slf, state=state, calls=calls, outcome=outcome):
+                        calls.append({'cache_from_source': ext.cache_from_source, 'self_conf': slf._module_conf,
+                                      'self_name': slf._module_name, 'table': state.module_name_to_beartype_conf.get('pkg.mod'),
+                                      'name': name})
+                        if outcome == 'raises':
+                            raise _Raise('ImportError', 'the standard loader')
+                        return 'CODE'
+
+                    class _Super(AObj):
+                        get_code = staticmethod(std_get_code)
+
+                    def bh(name, args, kwargs):
+                        if name == 'super':
+                            return _Super()
+                        return saved_b(name, args, kwargs) if saved_b else NotImplemented
+                    F.builtin_hook = bh
+                    raised = None
+                    out = None
+                    try:
+                        out = _call_function(F, fn, [slf, 'pkg.mod'], {}, 1)
+                    except _Raise as ex:
+                        raised = ex
+                    except _Abort as ex:
+                        ctx.require(False, f'cannot interpret get_code: {ex}')
+                    finally:
+                        for mod, n, old in olds:
+                            F.patch_global(mod, n, old)
+                    hooked = (not excluded) and conf is not None
+                    tag = f'excluded={excluded}:conf={"registered" if conf else "none"}:standard-loader-{outcome}'
+                    where = lm.where(fn.node)
+                    ok_call = len(calls) == 1 and calls[0]['name'] == 'pkg.mod'
+                    ob(RULE_PATCH, f'get_code:delegates-once:{tag}', where,
+                           'the standard loader is called exactly once, for the module asked for, and its result or '
+                           'exception is what get_code produces', ok_call and (
+                               (outcome == 'returns' and out == 'CODE' and raised is None) or
+                               (outcome == 'raises' and raised is not None and str(raised.what) == 'ImportError')),
+                           f'{len(calls)} calls; evaluates to {out!r} / raises {raised}')
+                    if not ok_call:
+                        continue
+                    c = calls[0]
+                    if hooked:
+                        if isinstance(c['cache_from_source'], FuncVal):
+                            variant.append(c['cache_from_source'])
+                        ob(RULE_PATCH, f'get_code:patched-while-compiling:{tag}', where,
+                               'while the standard loader runs for a hooked module the cache-path function is the beartype variant',
+                               isinstance(c['cache_from_source'], FuncVal), f'cache_from_source is {c["cache_from_source"]!r}')
+                        for what, got, want in (('self-conf', c['self_conf'], conf), ('self-name', c['self_name'], 'pkg.mod'),
+                                                ('table', c['table'], conf)):
+                            ob(RULE_PUB, f'get_code:publishes:{what}:{tag}', where,
+                                   'before the module is compiled the looked-up configuration is published on the loader '
+                                   '(what source_to_code hands to the transformer) and in the run-time table (what the '
+                                   'injected code looks up), replacing any earlier entry', got == want,
+                                   f'{what} is {got!r} when the standard loader runs, expected {want!r} (the code is transformed '
+                                   f'for one configuration and runs with another)')
+                    else:
+                        ob(RULE_PATCH, f'get_code:unhooked-path-unpatched:{tag}', where,
+                               'for a module that is not hooked the standard loader runs with the library\'s own cache-path function',
+                               is_original(c['cache_from_source']), f'cache_from_source is {c["cache_from_source"]!r}')
+                        ob(RULE_PUB, f'get_code:unhooked-publishes-nothing:{tag}', where,
+                               'a module that is not hooked is compiled untransformed: no configuration on the loader',
+                               c['self_conf'] is None and slf._module_conf is None, f'self._module_conf is {slf._module_conf!r}')
+                    ob(RULE_PATCH, f'get_code:restored-afterwards:{tag}', where,
+                           'after get_code (returning or raising) the cache-path function is the library\'s own again',
+                           is_original(ext.cache_from_source), f'cache_from_source is left as {ext.cache_from_source!r}')
+    finally:
+        F.faithful_try = False
+        F.builtin_hook = saved_b
+        F.stubs.clear()
+        F.stubs.update(saved_stubs)
+    return variant[0] if variant else None
